@@ -72,6 +72,10 @@ def _float(text):
 
     text = text.strip()
 
+    if not text:
+        # An empty field is malformed like any other: ValueError, as float("") raises
+        raise ValueError("empty 'decimal point assumed' field")
+
     if text[0] in ("-", "+"):
         text = f"{text[0]}.{text[1:]}"
     else:
